@@ -87,6 +87,10 @@ func c16Monitor(run *ev.Run, logs []wh.LogCfg) func(*wh.Step) {
 			sig := func(k string) string {
 				return fmt.Sprintf("%s log-has-checkpoint=%v status=%d store=%s", k, has, code, e.Cfg.Store)
 			}
+			if has && s.Out.Class == wh.OK && id == s.Req.LogID && e.X["do-is-update"] != nil && body != string(s.Out.Bytes) {
+				// The latest cosigned checkpoint is the one the last accepted update returned.
+				run.Report(sig("get-checkpoint-is-not-what-the-update-returned"), fmt.Sprintf("after accepted %q: GET checkpoint of %s returns %d bytes that are not the cosigned checkpoint that update returned (%d bytes): the read API serves an older cosignature", s.Req.Label, l.Origin, len(body), len(s.Out.Bytes)), rep)
+			}
 			if has {
 				if code != 200 || body != stored {
 					run.Report(sig("get-checkpoint"), fmt.Sprintf("after %q: GET checkpoint of %s returned %d and a body that %s the stored bytes", s.Req.Label, l.Origin, code, map[bool]string{true: "equals", false: "differs from"}[body == stored]), rep)
@@ -137,6 +141,7 @@ func c16Setup(e *wh.Env) {
 	r := mux.NewRouter()
 	ihttp.NewServer(e.W).RegisterHandlers(r)
 	e.X["router"] = http.Handler(r)
+	e.X["do-is-update"] = true
 	base, _ := url.Parse("http://witness.test/")
 	for _, fr := range c16Framings {
 		e.X["client:"+fr] = whttp.NewWitness(base, &http.Client{Transport: handlerTransport{r, fr}})
